@@ -10,7 +10,7 @@
 (* - well-formed ones serve C01 / C04, ill-formed ones C02, all of them    *)
 (* C03.                                                                    *)
 (***************************************************************************)
-EXTENDS XmlSurface, TLC, Json
+EXTENDS XmlSurface, XmlPrint, XmlLex, TLC, Json
 
 CONSTANTS MaxTokens,     \* tokens before "end"
           MaxDepth,      \* open elements
@@ -19,7 +19,8 @@ CONSTANTS MaxTokens,     \* tokens before "end"
           MaxDtd,        \* declarations in the internal subset
           Wide,          \* TRUE: the larger alphabet
           MaxTrunc,      \* truncation (End as a bad action) only after <= MaxTrunc tokens
-          NStylesGood, NStylesBad
+          NStylesGood, NStylesBad,
+          NLexStyles     \* styles whose rendering is read back by the scanner XmlLex (0 = off)
 
 VARIABLES st, toks, nbad
 vars == <<st, toks, nbad>>
@@ -83,6 +84,10 @@ SP == [k |-> "stag", n |-> Npa, lex |-> "ok",
 SE == [k |-> "stag", n |-> Na, lex |-> "ok",
        attrs |-> << [n |-> Nx, v |-> <<EI(Ne1), EI(Ne2)>>],
                     [n |-> Ny, v |-> Lit(<<32, 116, 32, 9, 117, 10>>)] >>]
+\* names that merely begin with "xml" / "xmlns" are ordinary names
+SX == [k |-> "stag", n |-> <<120, 109, 108, 97>>, lex |-> "ok",
+       attrs |-> << [n |-> <<120, 109, 108, 110, 115, 102, 111, 111>>, v |-> Lit(<<120>>)],
+                    [n |-> <<120, 109, 108, 102>>, v |-> <<CI(49), RI(10), CI(50)>>] >>]
 T1 == [k |-> "text", items |-> Lit(<<120, 32, 121, 10>>)]
 T2 == [k |-> "text", items |-> Lit(<<60, 38, 62, 233, 128512, 93, 93>>)]
 T3 == [k |-> "text", items |-> <<EI(Ne1), RI(65), EI(Ne2), EI(N_amp), RI(13)>>]
@@ -130,7 +135,7 @@ Miscs    == IF Wide THEN {COM, COM0, PI1, PI0, WS} ELSE {COM, PI1, WS}
 Doctypes == IF Wide THEN {DT1, DT2, DT3, DT4} ELSE {DT1, DT2, DT3}
 Decls    == IF Wide THEN {E1, E2, UE, UP, NO, NS, AL1, AL2, AL3, ED, COM, PI1, WS, EC1, EC2}
             ELSE {E1, E2, UE, NO, AL1, AL2, ED, PI1}
-Stags    == IF Wide THEN {SA, SB, SP, SE} ELSE {SA, SB, SE}
+Stags    == IF Wide THEN {SA, SB, SP, SE, SX} ELSE {SA, SB, SE}
 Texts    == IF Wide THEN {T1, T2, T3, T4, CD, CD0} ELSE {T1, T2, T3, CD}
 Inner    == IF Wide THEN {COM, PI1, PI0} ELSE {COM, PI1}
 
@@ -230,5 +235,17 @@ Case(k) == [toks |-> toks, style |-> Styles[k], text |-> Render(toks, Styles[k])
 EmitInv ==
   Done => \A k \in 1..(IF st.wf THEN NStylesGood ELSE NStylesBad) : PrintT(<<"REPLAY", ToJson(Case(k))>>)
 
-Inv == MachineInv /\ RenderInv /\ EmitInv
+\* C04 at the specification level: a faithful printer exists and reaches a fixpoint (XmlPrint)
+PrintInv == (Done /\ st.wf) => PrintRoundTrip(st)
+
+\* Style independence, checked through an independent reading of the text (XmlLex): for every
+\* style the rendered text, scanned back into tokens and recognised, is well-formed exactly when
+\* the writer's behaviour is, and denotes the writer's tree.
+LexInv ==
+  Done => \A k \in 1..NLexStyles :
+            LET r == RecognizeText(Render(toks, Styles[k]))
+            IN IF st.wf THEN r.wf /\ r.tree = st.tree
+               ELSE (\E i \in 1..Len(st.viol) : st.viol[i] # "TwoColons") => ~r.wf
+
+Inv == MachineInv /\ RenderInv /\ PrintInv /\ LexInv /\ EmitInv
 =============================================================================
